@@ -58,6 +58,18 @@ class Gen:
         return "(%s if %s else %s)" % (self.iexpr(depth + 1), self.cond(depth + 1), self.iexpr(depth + 1))
 
     def cond(self, depth=0):
+        if depth == 0:
+            seen = self.__dict__.setdefault("seen_conds", [])
+            if seen and R.random() < 0.15:
+                return R.choice(seen)       # the same test again (decided on the path, unless something it mentions changed)
+            if R.random() < 0.03:
+                return R.choice(["True", "False", "not True"])
+            c = self._cond(0)
+            seen.append(c)
+            return c
+        return self._cond(depth)
+
+    def _cond(self, depth=0):
         r = R.random()
         if depth > 2 or r < 0.5:
             return "%s %s %s" % (self.iexpr(depth + 1), R.choice(["<", "<=", ">", ">=", "==", "!="]), self.iexpr(depth + 1))
